@@ -284,37 +284,81 @@ func negOp(op token.Token) token.Token {
 
 // guardEdges enumerates the conditional branches that every path from the
 // function entry to block b must take: pairs (If instruction, branch taken).
-func guardEdges(b *ssa.BasicBlock) []struct {
+// An edge p->s is such a guard iff b becomes unreachable from the entry when
+// the edge is removed.  Edges leaving a block that calls a no-return function
+// (a helper that always panics) are treated as absent.
+type guardEdge struct {
 	If    *ssa.If
 	Truth bool
-} {
-	var out []struct {
-		If    *ssa.If
-		Truth bool
+}
+
+var guardMemo = map[*ssa.BasicBlock][]guardEdge{}
+
+func guardEdges(b *ssa.BasicBlock) []guardEdge {
+	if b == nil {
+		return nil
 	}
-	for d := b; d != nil; d = d.Idom() {
-		p := d.Idom()
-		if p == nil || len(p.Instrs) == 0 {
-			continue
-		}
-		iff, ok := p.Instrs[len(p.Instrs)-1].(*ssa.If)
-		if !ok {
-			continue
-		}
-		for i, s := range p.Succs {
-			if len(s.Preds) == 1 && (s == d || s.Dominates(d)) && (s == b || s.Dominates(b)) {
-				// make sure the other successor does not also lead here exclusively
-				other := p.Succs[1-i]
-				if other == s {
-					continue
-				}
-				out = append(out, struct {
-					If    *ssa.If
-					Truth bool
-				}{iff, i == 0})
+	if g, ok := guardMemo[b]; ok {
+		return g
+	}
+	fn := b.Parent()
+	dead := map[*ssa.BasicBlock]bool{}
+	for _, x := range fn.Blocks {
+		for _, ins := range x.Instrs {
+			if ci, ok := ins.(*ssa.Call); ok && isNoReturn(ci.Call.StaticCallee()) {
+				dead[x] = true
 			}
 		}
 	}
+	reach := func(skipFrom *ssa.BasicBlock, skipIdx int) bool {
+		if len(fn.Blocks) == 0 {
+			return false
+		}
+		entry := fn.Blocks[0]
+		if entry == b {
+			return true
+		}
+		seen := map[*ssa.BasicBlock]bool{entry: true}
+		stack := []*ssa.BasicBlock{entry}
+		for len(stack) > 0 {
+			x := stack[len(stack)-1]
+			stack = stack[:len(stack)-1]
+			if dead[x] {
+				continue
+			}
+			for i, s := range x.Succs {
+				if x == skipFrom && i == skipIdx {
+					continue
+				}
+				if s == b {
+					return true
+				}
+				if !seen[s] {
+					seen[s] = true
+					stack = append(stack, s)
+				}
+			}
+		}
+		return false
+	}
+	var out []guardEdge
+	if reach(nil, -1) {
+		for _, p := range fn.Blocks {
+			if len(p.Instrs) == 0 || dead[p] {
+				continue
+			}
+			iff, ok := p.Instrs[len(p.Instrs)-1].(*ssa.If)
+			if !ok || len(p.Succs) != 2 || p.Succs[0] == p.Succs[1] {
+				continue
+			}
+			for i := range p.Succs {
+				if !reach(p, i) {
+					out = append(out, guardEdge{iff, i == 0})
+				}
+			}
+		}
+	}
+	guardMemo[b] = out
 	return out
 }
 
@@ -373,6 +417,51 @@ func exprEqD(a, b ssa.Value, d int) bool {
 		return false
 	}
 	return sameMem(a, b)
+}
+
+// isNoReturn: every exit of fn is a panic (no Return instruction): a call to
+// it ends the path (e.g. a helper that aborts by panicking).
+var noReturnMemo = map[*ssa.Function]bool{}
+
+func isNoReturn(fn *ssa.Function) bool {
+	if fn == nil || len(fn.Blocks) == 0 {
+		return false
+	}
+	if v, ok := noReturnMemo[fn]; ok {
+		return v
+	}
+	res := true
+	hasPanic := false
+	for _, b := range fn.Blocks {
+		switch b.Instrs[len(b.Instrs)-1].(type) {
+		case *ssa.Return:
+			res = false
+		case *ssa.Panic:
+			hasPanic = true
+		}
+	}
+	res = res && hasPanic
+	noReturnMemo[fn] = res
+	return res
+}
+
+// effectivePreds counts the predecessors of b through which control can
+// actually arrive: a predecessor block that calls a no-return function before
+// its terminator does not count.
+func effectivePreds(b *ssa.BasicBlock) int {
+	n := 0
+	for _, p := range b.Preds {
+		dead := false
+		for _, ins := range p.Instrs {
+			if ci, ok := ins.(*ssa.Call); ok && isNoReturn(ci.Call.StaticCallee()) {
+				dead = true
+			}
+		}
+		if !dead {
+			n++
+		}
+	}
+	return n
 }
 
 // rangeAt computes what the definition of v and the comparisons dominating
